@@ -138,6 +138,7 @@ func (c *wsConn) nextWriter(cb func(io.Writer)) {
 	c.writeLk.Lock()
 	defer c.writeLk.Unlock()
 
+	c.resetWriteDeadline()
 	wcl, err := c.conn.NextWriter(websocket.TextMessage)
 	if err != nil {
 		log.Error("handle me:", err)
@@ -163,6 +164,7 @@ func (c *wsConn) sendRequest(req request) error {
 		log.Debugw("sendRequest", "req", req.Method, "id", req.ID)
 	}
 
+	c.resetWriteDeadline()
 	if err := c.conn.WriteJSON(req); err != nil {
 		return err
 	}
@@ -624,6 +626,7 @@ func (c *wsConn) setupPings() func() {
 			select {
 			case <-time.After(c.pingInterval):
 				c.writeLk.Lock()
+				c.resetWriteDeadline()
 				if err := c.conn.WriteMessage(websocket.PingMessage, []byte{}); err != nil {
 					log.Errorf("sending ping message: %+v", err)
 				}
@@ -900,6 +903,7 @@ func (c *wsConn) handleWsConn(ctx context.Context) {
 		case <-c.stop:
 			c.writeLk.Lock()
 			cmsg := websocket.FormatCloseMessage(websocket.CloseNormalClosure, "")
+			c.resetWriteDeadline()
 			if err := c.conn.WriteMessage(websocket.CloseMessage, cmsg); err != nil {
 				log.Warn("failed to write close message: ", err)
 			}
@@ -947,6 +951,18 @@ func (r *deadlineResetReader) Read(p []byte) (n int, err error) {
 		r.lastReset = time.Now()
 	}
 	return
+}
+
+// resetWriteDeadline bounds the write that follows by the connection timeout. Without a
+// write deadline a peer that stops reading without closing the connection blocks the
+// writer for ever, and with it the connection loop, the timeout handling and the closer.
+// Must be called with writeLk held, before every write.
+func (c *wsConn) resetWriteDeadline() {
+	if c.timeout > 0 {
+		if err := c.conn.SetWriteDeadline(time.Now().Add(c.timeout)); err != nil {
+			log.Error("setting write deadline", err)
+		}
+	}
 }
 
 func (c *wsConn) resetReadDeadline() {
